@@ -270,6 +270,85 @@ theorem tamper_cli (m : Manifest) (data rk : Bytes) :
   · left; exact ⟨pt, keyN, a1, a2, a4, a5, by rw [← C08.sha_digest]; exact a6, hr⟩
   · right; exact h
 
+/-! ## manifests that arrive without the chunk cannot poison a held chunk
+
+`Node::ingest_manifest` (control FETCH, `request_chunk`, the dispatch of a pending fetch) and the accepting branch of
+`handle_announce` take a manifest with nothing to check it against.  On the tree before
+fixes/C11-ingest-must-not-poison-held-chunk.patch they overwrote the key-share record and cached manifest of a chunk the
+node itself holds, after which `fetch_chunk` decrypted the held bytes under another key and returned the result as a hit
+(witness corpus/C11/observation-ingest-poisons-lookup.ops).  The repaired code (`Gen.C11.ingestGuard = announceGuard =
+"held-key"`, pinned by `guard_ingest` / `guard_announce`) adopts such a manifest for a held chunk only if it stands for
+the same content hash and the same key. -/
+
+theorem gen_guards : C11.ingestGuard = "held-key" ∧ C11.announceGuard = "held-key" := by decide
+
+/-- a manifest arriving without the chunk: through `ingest_manifest` (decoded or not), or in an ANNOUNCE that passed the
+    admission chain — any manifest, at any time -/
+inductive Forged where
+  | ingest (wallNowNs : Int) (decoded : Option Manifest)
+  | announce (wallNowNs : Int) (m : Manifest)
+
+def applyForged (cfg : Config) (st : NodeState) : Forged → NodeState
+  | .ingest now d => (ingestManifest cfg st now d).1
+  | .announce now m => announceAdmitted cfg st now m
+
+def runForged (cfg : Config) (st : NodeState) (ops : List Forged) : NodeState := ops.foldl (applyForged cfg) st
+
+/-- **held-chunk-poisoned never happens.**  If a node holds an encrypted chunk and reads it with key `k`, then after any
+    sequence of ingested / announced manifests (arbitrary content, arbitrary times) it still holds the same record, still
+    reads it with `k`, and `fetch_chunk` returns exactly what it returned before. -/
+theorem held_chunk_not_poisoned (cfg : Config) (st : NodeState) (id : Bytes) (record : Record) (k : List Nat)
+    (h : KeyedBy st id record k) (ops : List Forged) :
+    KeyedBy (runForged cfg st ops) id record k ∧ ∀ rk, fetchChunk (runForged cfg st ops) id rk = fetchChunk st id rk := by
+  have hk : KeyedBy (runForged cfg st ops) id record k := by
+    unfold runForged
+    induction ops generalizing st with
+    | nil => exact h
+    | cons op rest ih =>
+      rw [List.foldl_cons]
+      apply ih
+      cases op with
+      | ingest now d => exact ingest_keeps_key cfg st now d id record k h
+      | announce now m => exact announce_keeps_key cfg st now m id record k h
+  exact ⟨hk, fun rk => by rw [fetchChunk_keyed hk rk, fetchChunk_keyed h rk]⟩
+
+/-- the publisher: after `store_chunk`, whatever manifests are ingested or announced afterwards, the local lookup returns
+    the payload -/
+theorem store_then_forged (cfg : Config) (hcfg : ShardCfg cfg) (st : NodeState) (wallNowNs : Int) (id payload : Bytes) (ttl : Int)
+    (key nonce rk : Bytes) (rd : Nat → Nat) (hkey : ChunkKey key) (ops : List Forged) :
+    ∃ r, storeChunk cfg st wallNowNs id payload ttl key nonce rk rd = .value r ∧
+      ∀ rk1, fetchChunk (runForged cfg r.node ops) id rk1 = .value (some payload) := by
+  obtain ⟨h1, h2⟩ := hcfg.bits
+  obtain ⟨shares, hs, _, _⟩ := split_facts cfg h1 h2 key rd
+  refine ⟨_, storeChunk_eq cfg st wallNowNs id payload ttl key nonce rk rd shares hs, ?_⟩
+  intro rk1
+  have hk := keyed_after_store cfg h1 h2 st wallNowNs id payload ttl key nonce rk hkey.1 rd shares hs
+  rw [(held_chunk_not_poisoned cfg _ id _ _ hk ops).2 rk1, fetchChunk_keyed hk rk1]
+  exact congrArg _ (decrypt_sealed key id payload nonce rk rk1 hkey.notZero)
+
+/-- the importer: after an accepted replica (returned bytes `pt`), whatever manifests are ingested or announced
+    afterwards, its lookup returns `pt` for as long as the record is held (non-zero reconstructed key) -/
+theorem replica_then_forged (cfg : Config) (st : NodeState) (wallNowNs : Int) (m : Manifest) (ct rk pt : Bytes) (ttl : Int)
+    (hr : receiveChunk cfg st wallNowNs (some m) ct rk = (acceptEffects st m ttl ct, .accepted pt))
+    (hstable : ∀ keyN rk', Shamir.combine m.shards m.threshold = .ok keyN →
+      ChaCha20.decrypt_with_key (ofNats keyN) m.chunkId ct m.nonce rk' = ChaCha20.decrypt_with_key (ofNats keyN) m.chunkId ct m.nonce rk)
+    (ops : List Forged) :
+    ∀ rk1, fetchChunk (runForged cfg (receiveChunk cfg st wallNowNs (some m) ct rk).1 ops) m.chunkId rk1 = .value (some pt) := by
+  intro rk1
+  rcases tamper cfg st wallNowNs (some m) ct rk with ⟨m', ttl', pt', keyN, hd, a1, a2, _, a4, a5, _, hr'⟩ | ⟨_, hna⟩
+  · cases hd
+    rw [hr'] at hr
+    have hpt : pt' = pt := by
+      have := congrArg Prod.snd hr
+      simpa using this
+    rw [hr']
+    have hk := keyed_after_accept st m ttl' ct keyN a1 a2 a4
+    rw [(held_chunk_not_poisoned cfg _ m.chunkId _ _ hk ops).2 rk1, fetchChunk_keyed hk rk1]
+    show Outcome.value (ChaCha20.decrypt_with_key (ofNats keyN) m.chunkId ct m.nonce rk1) = _
+    rw [hstable keyN rk1 a4, a5, hpt]
+  · rw [hr] at hna
+    simp [Recv.isAccepted] at hna
+
 /-! ## the excluded point: an all-zero chunk key
 
 `CryptoManager::generate_key()` fills 32 bytes from `std::random_device`; the all-zero outcome has probability 2⁻²⁵⁶ and
